@@ -239,6 +239,9 @@ func cmdC07(args []string) {
 						emit(dl, w.Exec(dl))
 						ol := fmt.Sprintf("open %s %d", f[1], pt.fid)
 						emit(ol, w.Exec(ol))
+					case "copy":
+						rl := "rmfile " + f[3] // whatever a failed CopyTo left in its destination is discarded
+						emit(rl, w.Exec(rl))
 					case "flush":
 						if r.Intn(2) == 0 {
 							emit(l, w.Exec(l)) // retried Flush
@@ -297,6 +300,12 @@ func extraCommand(name string, args []string) bool {
 	switch name {
 	case "c07":
 		cmdC07(args)
+		return true
+	case "c05":
+		cmdC05(args)
+		return true
+	case "c03":
+		cmdC03(args)
 		return true
 	case "c16":
 		cmdC16(args)
